@@ -90,6 +90,10 @@ subscript assignment: all refused)
                                            `<name>_unpack` for the theorems to tie to the struct model
     reaching the end                       `some [("X", self_X), ...]`: the int attributes set on that
                                            path, in order of first assignment
+  attribute-reading methods (`Func(attrs_in=True, ctx_attrs=("cm",))`): every `self.X` read (X not a context
+    attribute) is an int INPUT: a parameter `self_X`, parameters sorted by attribute name (assumption: the attribute
+    holds an int); `return <cm>.packer["FMT"].pack(e1, ..., en)` returns the argument tuple `[e1, ..., en]`,
+    struct is not interpreted, FMT is emitted as `<name>_pack`.  No attribute is stored.
   Stream reads, calls and the raise-tests are hoisted in evaluation order in front of the
   statement; they are refused inside `and`/`or` operands after the first and inside conditional
   expressions, where Python would evaluate them conditionally.
@@ -127,7 +131,14 @@ class Func:
     variables in scope at loop entry)."""
 
     def __init__(self, name, cls=None, ctx=("cm", "self"), stream=None, types=None, ret=T_INT, fuels=(),
-                 lean_name=None, init=False, unpacked=None):
+                 lean_name=None, init=False, unpacked=None, attrs_in=False, ctx_attrs=()):
+        # attrs_in=True: a method that only READS int attributes `self.X`: each becomes an Int parameter
+        # `self_X` (sorted by attribute name; listed in `attr_params`).  ctx_attrs: attributes that hold a
+        # context object (self.cm).  `return <cm>.packer["FMT"].pack(e1, ..., en)` is then allowed as the
+        # uninterpreted result `[e1, ..., en]` (FMT recorded as `<name>_pack`).
+        self.attrs_in, self.ctx_attrs0 = attrs_in, tuple(ctx_attrs)
+        self.attr_params = []
+        self.pack_fmt = None
         # init=True: an `__init__`-style method (returns None); the result is the list of the int attributes
         # `self.X` it assigned.  unpacked="buff": the parameter whose only use is ONE statement
         # `t1, ..., tn = <cm>.packer["FMT"].unpack(buff[: self.length])`; the translated function takes the
@@ -177,7 +188,7 @@ class FuncTranslator:
         self.aux = []            # auxiliary loop defs (lists of lines)
         self.nloops = 0
         self.unpack_stmt_node = None
-        self.ctx_attrs = set()    # init mode: attributes holding a context object (self.cm = cm)
+        self.ctx_attrs = set(spec.ctx_attrs0)    # init mode: attributes holding a context object (self.cm = cm)
         self.fresh_lists = set()  # locals bound to a list literal (item assignment allowed)
         self.loops = {}          # (while index, locals) -> auxiliary def name
         self.in_while = False
@@ -216,6 +227,11 @@ class FuncTranslator:
                 if sys.maxsize != 2 ** 63 - 1:
                     raise Unsupported(node, "sys.maxsize is not 2**63-1 on this interpreter")
                 return ilit(2 ** 63 - 1), T_INT
+            if self.spec.attrs_in and isinstance(node.value, ast.Name) and node.value.id == "self" \
+                    and node.attr not in self.ctx_attrs and "self" in self.spec.ctx:
+                if node.attr not in self.spec.attr_params:
+                    self.spec.attr_params.append(node.attr)
+                return "self_" + node.attr, T_INT
             if self.spec.init and isinstance(node.value, ast.Name) and node.value.id == "self":
                 key = "self." + node.attr
                 if key in env.d:
@@ -336,7 +352,7 @@ class FuncTranslator:
         return t, ty
 
     def is_ctx(self, a):
-        if self.spec.init and isinstance(a, ast.Attribute) and isinstance(a.value, ast.Name) and a.value.id == "self" \
+        if (self.spec.init or self.spec.attrs_in) and isinstance(a, ast.Attribute) and isinstance(a.value, ast.Name) and a.value.id == "self" \
                 and a.attr in self.ctx_attrs:
             return True
         return isinstance(a, ast.Name) and a.id in self.spec.ctx
@@ -572,6 +588,19 @@ class FuncTranslator:
             if st.value is None or self.spec.init:
                 raise Unsupported(st, "return without a value / return in an initialiser")
             pre = []
+            v = st.value
+            if (self.spec.attrs_in and isinstance(v, ast.Call) and isinstance(v.func, ast.Attribute) and v.func.attr == "pack"
+                    and isinstance(v.func.value, ast.Subscript) and isinstance(v.func.value.slice, ast.Constant)
+                    and isinstance(v.func.value.slice.value, str) and isinstance(v.func.value.value, ast.Attribute)
+                    and v.func.value.value.attr == "packer" and self.is_ctx(v.func.value.value.value) and not v.keywords):
+                fmt = v.func.value.slice.value
+                if self.spec.pack_fmt not in (None, fmt):
+                    raise Unsupported(st, "two different pack formats")
+                self.spec.pack_fmt = fmt
+                args = [self.int_expr(a, env, pre, True) for a in v.args]
+                if self.spec.ret != T_LIST:
+                    raise Unsupported(st, "declare ret=T_LIST for a method returning packer[...].pack(...)")
+                return self.count([self.src(st)] + self.emit_pre(pre) + ["some ([" + ", ".join(args) + "] : Py.IntList)"])
             s, t = self.expr(st.value, env, pre, True)
             if t != self.spec.ret:
                 raise Unsupported(st, f"returns {t}, declared {self.spec.ret}")
@@ -767,8 +796,17 @@ class FuncTranslator:
         body = self.block(fn.body, env, fall_off, None)
         if len([n for n in ast.walk(fn) if isinstance(n, ast.While)]) != len(spec.fuels):
             raise Unsupported(fn, "number of fuels differs from the number of while loops")
+        if spec.attrs_in:
+            # sorted by name, NOT by order of first read: the position of a parameter must not depend on the body
+            spec.attr_params = sorted(spec.attr_params)
+            spec.params = [("self_" + a_, T_INT) for a_ in spec.attr_params] + spec.params
         sig = " ".join(f"({p} : {t})" for p, t in spec.params) + (" (bs : List Nat)" if self.uses_stream else "")
         where = f"{spec.cls}.{spec.name}" if spec.cls else spec.name
+        if spec.pack_fmt is not None:
+            out_pack = [f"/-- struct format of the `pack` call of `{where}` (the translated function returns the argument tuple) -/",
+                        f'def {spec.lean_name}_pack : String := "{spec.pack_fmt}"', ""]
+        else:
+            out_pack = []
         out = []
         for aux in self.aux:
             out += aux + [""]
@@ -777,7 +815,10 @@ class FuncTranslator:
                 raise Unsupported(fn, "no unpack statement")
             out += [f"/-- struct format and slice length of the unpack statement of `{where}` -/",
                     f'def {spec.lean_name}_unpack : String × Nat := ("{spec.unpack_info[0]}", {spec.unpack_info[1]})', ""]
-        out += [f"/-- `{where}` (source lines {fn.lineno}-{fn.end_lineno}) -/",
+        out += out_pack
+        out += [f"/-- `{where}` (source lines {fn.lineno}-{fn.end_lineno})" + (
+                    "; the int attributes read are the parameters " + ", ".join("self_" + a_ for a_ in spec.attr_params)
+                    if spec.attrs_in else "") + " -/",
                 f"def {spec.lean_name} {sig} : {self.ret_type()} :=".replace("  :", " :")]
         out += ["  " + x for x in body]
         return out
